@@ -121,6 +121,8 @@ def run(ctx):
         ctx.nontriv((a,) + tuple(key) + (ev["res"]["ok"],))
     for e in events[:2] + events[-2:]:
         ctx.sample({k: e[k] for k in ("act", "inp", "res")})
+    events += core.suite_events(ctx, ["tests/test_helper.py", "tests/test_keys.py", "tests/test_bip32.py", "tests/test_bip85.py"],
+                                ("B58Enc", "B58Dec", "B58EncCheck", "B58DecCheck"), len(events), limit=200 if ctx.quick else 4000)
     rj = ctx.validate(MODULE, events)
     for eid, clause in sorted(rj.items()):
         ev = events[eid]
